@@ -154,6 +154,19 @@ def training_samples(scn):
 # ----------------------------------------------------------------------------
 # kernel seam
 # ----------------------------------------------------------------------------
+class DuckGenerator:
+    """Generator-like (choice / normal / uniform / integers / bit_generator ...) without being a ``numpy.random.Generator``."""
+
+    def __init__(self, inner):
+        object.__setattr__(self, "_inner", inner)
+
+    def __getattr__(self, name):
+        return getattr(object.__getattribute__(self, "_inner"), name)
+
+    def __setattr__(self, name, value):
+        setattr(object.__getattribute__(self, "_inner"), name, value)
+
+
 class KernelSeam:
     """Installed as ``minipcn.SEAM`` / ``emcee.SEAM`` for one process."""
 
@@ -527,6 +540,9 @@ def run_process(
         user_rng.choice_hook = choice_hook
         user_rng.on_choice = on_choice
     res.user_rng = user_rng
+    # what aspire is handed: the recording Generator itself, or a generator-LIKE object that is not a numpy Generator
+    # (what orng.ArrayRNG is for torch / jax users) delegating to it
+    rng_arg = DuckGenerator(user_rng) if (user_rng is not None and scn.get("rng_kind") == "duck") else user_rng
 
     ck = scn["checkpoint"]
     sampler_name = scn["sampler"]
@@ -625,7 +641,7 @@ def run_process(
                         kw.update(skw)
                         if user_rng is not None and sampler_name != "importance" and rng_route in ("top", "ctor"):
                             if sampler_name != "emcee_smc":
-                                kw["rng"] = user_rng
+                                kw["rng"] = rng_arg
                         if ck["mode"] == "path":
                             kw["checkpoint_path"] = file_path
                             kw["checkpoint_every"] = ck["every"]
@@ -643,7 +659,7 @@ def run_process(
                         from aspire.samplers.smc.base import SMCSampler
                         from aspire.utils import determine_backend_name
 
-                        smp = A.init_sampler(sampler_name, **call_kw, **({"rng": user_rng} if user_rng is not None else {}))
+                        smp = A.init_sampler(sampler_name, **call_kw, **({"rng": rng_arg} if user_rng is not None else {}))
                         cur["sampler"] = smp
                         kw = dict(skw)
                         sk2 = dict(kw.pop("sampler_kwargs", None) or {})
@@ -657,16 +673,24 @@ def run_process(
                     # ---- sampler driven directly (constructor / sample-call rng routes)
                     ctor_kw = {}
                     if user_rng is not None and rng_route == "ctor" and is_smc and sampler_name != "emcee_smc":
-                        ctor_kw["rng"] = user_rng
+                        ctor_kw["rng"] = rng_arg
                     smp = A.init_sampler(sampler_name, **call_kw, **ctor_kw)
                     cur["sampler"] = smp
                     kw = dict(skw)
                     if user_rng is not None and rng_route == "sample" and sampler_name != "importance":
                         if sampler_name != "emcee_smc":
-                            kw["rng"] = user_rng
+                            kw["rng"] = rng_arg
                     if ck["mode"] == "path":
                         kw["checkpoint_file_path"] = file_path
                         kw["checkpoint_every"] = ck["every"]
+                    first = scn.get("first_call")
+                    if first:
+                        # the same sampler object first serves another sample() call (its result is discarded)
+                        fkw = copy.deepcopy(first)
+                        if "rng" in kw:
+                            fkw["rng"] = make_generator(int(scn["seeds"]["rng"]) + 17, trace=None, name="first_call")
+                        smp.sample(scn["n_samples"], **fkw)
+                        trace.log("first_call_done", iterations=len(smp.history.beta) if hasattr(smp.history, "beta") else None)
                     out = smp.sample(scn["n_samples"], **kw)
                     return out, smp.history
 
